@@ -146,6 +146,8 @@ class _Gen:
         special = self.f["comment_special_chars"] and self.boolean(0.15)
         if special:
             alpha = COMMENT_ALPHABET + '\\\\""""uxN{'
+        if self.boolean(0.12):
+            alpha = alpha + "\u00e9\u20ac\u0416\u00ff"       # comments are prose: accents, currency signs, other scripts
         t = self.draw(st.text(alphabet=alpha, min_size=1, max_size=24))
         t = t.strip()
         if not t:
